@@ -289,6 +289,11 @@ class Interp(seqdom.Interp):
     def seq_domain(self, val):
         if isinstance(val, Setups):
             return ("idx", val.lo, P.s("N"), lambda i: SetupRec(i))
+        if isinstance(val, Mat) and val.ndim == 3 and val.logical(0) == "f":
+            # iterating a (frequency, channel, channel) stack: the block of one line, the same typed block for every line
+            lay = tuple(None if a == 0 else (a - 1 if a is not None else None) for a in val.lay)
+            line = Mat(val.rows, val.cols, val.form, lay)
+            return ("idx", P.c(0), P.s("nf"), lambda i: line)
         return super().seq_domain(val)
 
     def index_hook(self, base, idx, node):
@@ -578,10 +583,23 @@ class Interp(seqdom.Interp):
                 full = t[2] == P.c(0) and t[3] == P.s("N")
                 form = ("mean", v, m.form) if full else ("opq", f"sum over setups {t[2]!r}..{t[3]!r} (not all of them)")
                 return Mat(star(m.rows), star(m.cols), form, m.lay)
+        if fn in ("numpy.linalg.inv", "numpy.linalg.pinv") and args and isinstance(args[0], Sq):
+            t = normalise(args[0].t)
+            if t[0] == "for" and t[4][0] == "obj" and isinstance(t[4][1], Mat):
+                # batched inverse of one block per setup
+                m = t[4][1]
+                if m.matrix_last():
+                    if not self.same(m.rows, m.cols):
+                        self.err(node, f"`{astq.src(node, 60)}` inverts blocks that are not square in the channel groups: {m.show()}")
+                    return Sq(("for", t[1], t[2], t[3], ("obj", Mat(m.cols, m.rows, finv(m.form), m.lay))))
         if fn in ("numpy.array", "numpy.asarray", "numpy.stack") and args and isinstance(args[0], Sq):
             t = normalise(args[0].t)
             if t[0] == "for" and t[4][0] == "obj" and isinstance(t[4][1], Mat):
                 m = t[4][1]
+                ax_ = kw.get("axis")
+                if repr(m.subs(t[1], P.s("zz1"))) != repr(m.subs(t[1], P.s("zz2"))) and (ax_ is None or self._int(ax_) == 0):
+                    # one DIFFERENT block per setup along a new leading axis: a batch, indexed / iterated / reduced like the list
+                    return args[0]
                 if repr(m.subs(t[1], P.s("zz1"))) == repr(m.subs(t[1], P.s("zz2"))):
                     # the same typed block for every line of the grid: a stack along a new leading (frequency) axis
                     if m.lay[2] is None:
@@ -593,6 +611,15 @@ class Interp(seqdom.Interp):
             base = self.ev(node.func.value, env)
             if isinstance(base, Mat):
                 return base
+        if isinstance(node.func, ast.Attribute) and node.func.attr == "reshape" and args:
+            base = self.ev(node.func.value, env)
+            if isinstance(base, Mat):
+                shp = args[0] if len(args) == 1 and isinstance(args[0], Tup) else Tup(list(args))
+                own = self.attr_hook(base, "shape", node)
+                if isinstance(own, Tup) and len(own.items) == len(shp.items) and all(
+                        isinstance(a_, I) and isinstance(b_, I) and a_.p == b_.p for a_, b_ in zip(own.items, shp.items)):
+                    return base
+                return Mat(base.rows, base.cols, ("opq", f"`{astq.src(node, 50)}` reshapes a typed block"), base.lay)
         if fn == "len" and args and isinstance(args[0], Setups):
             return I(P.s("N") - args[0].lo)
         if fn == "len" and args and isinstance(args[0], Sq):
